@@ -159,7 +159,9 @@ SRC_TIE = {
     'C05': {'Unblock': ['Unblock1014.read', 'Block1014.write', 'Block1014.finalise'],
             'OneShot': ['block_1014', 'unblock_1014']},
     'C01': {'Bits': ['BitArray.tolist', 'BitArray.fromlist'], 'Conv': ['_pytype_to_string', '_string_to_pytype'],
-            'Entry': ['dumps', 'loads']},
+            'Entry': ['dumps', 'loads'],
+            'LoopRoundTrip': ['_dict_to_iso8583_loop', '_iso8583_to_dict_loop', '_iso8583_to_dict', 'BitArray.tolist',
+                              'BitArray.fromlist']},
     'C02': {'Bits': ['BitArray.tolist', 'BitArray.fromlist'], 'Field': ['_get_field_length', '_field_to_iso8583', '_iso8583_to_field_frame'],
             'EncLoop': ['_dict_to_iso8583_loop', 'BitArray.fromlist'], 'Conv': ['_pytype_to_string', '_string_to_pytype'],
             'Entry': ['dumps', 'loads']},
